@@ -33,6 +33,7 @@ package main
 import (
 	"bytes"
 	"fmt"
+	"io"
 	"regexp"
 	"strings"
 	"time"
@@ -457,10 +458,34 @@ func onlyLFsMissing(want, got []byte) bool {
 	return j == len(got)
 }
 
+// dataWithEOF delivers as much as fits and reports io.EOF together with the last bytes.
+type dataWithEOF struct {
+	data []byte
+	pos  int
+}
+
+func (r *dataWithEOF) Read(p []byte) (int, error) {
+	n := copy(p, r.data[r.pos:])
+	r.pos += n
+	if r.pos == len(r.data) {
+		return n, io.EOF
+	}
+	return n, nil
+}
+
 // runTokens executes text and compares the resulting procedure with want.
 func runTokens(c *mc.Ctx, text string, want []pstoken.Object, spellings []string, outcome string) mc.Verdict {
 	intp := postscript.NewInterpreter()
-	err := intp.ExecuteString(text)
+	var err error
+	// the tokens must be read the same way however the text arrives: by a pure
+	// function of the text half of the cases are delivered by a reader that
+	// returns the final bytes together with io.EOF in the same Read call
+	// (permitted by io.Reader), the other half by strings.Reader
+	if len(text)%2 == 1 {
+		err = intp.Execute(&dataWithEOF{data: []byte(text)})
+	} else {
+		err = intp.ExecuteString(text)
+	}
 	c.Step()
 	fail := func(class, detail string) mc.Verdict {
 		r := fmt.Sprintf("program %q", text)
